@@ -146,6 +146,14 @@ def run_case(case, rec):
         if case["pbatch"]:
             thetas = rng.uniform(0.5, 2.0, (B, 1))
             batch = jinns.data.append_param_batch(batch, {"theta": jnp.asarray(thetas)})
+        if case["seed"] % 2:
+            # the batch also carries observations with an observed equation parameter the network reads: that is the
+            # observation term's business only, the initial-condition term keeps the caller's / the batch's value
+            no = 3
+            batch = jinns.data.append_obs_batch(batch, {"pinn_in": jnp.asarray(rng.uniform(0, 1, (no, 1))),
+                                                        "val": jnp.asarray(rng.uniform(-1, 1, (no, n_out))),
+                                                        "eq_params": {"theta": jnp.asarray(rng.uniform(3.0, 5.0, (no, 1)))}})
+            rec.count("ic_cases_with_observed_eq_params_in_batch")
         total, terms = guard.call(jit_eval, loss, params, batch)
         if thetas is None:
             exp = float(np.sum(w * (net.val([t0], {"theta": 1.7}) - u0) ** 2))
